@@ -206,6 +206,10 @@ def rt_inputs(rng):
             if i != j:
                 yield a + b2
                 yield a + b2[:5] + a[:6]
+    # runs of EDIFACT / X12 / C40 characters with a short tail the mode cannot carry (end-of-data rules)
+    for head in (b'A.B,C-D/E+F:', b'ABCD.EFGH/', b'ABCDEFGHIJKL', b'AB*CD>EF GH'):
+        for t in (b'a', b'ab', b'abc', b'ab1', b'\xe1', b'12', b'1'):
+            yield head + t
     for b in bodies:
         yield b
         for h in (H5, H6):
@@ -240,7 +244,7 @@ def rt_search(binary, budget_s):
     meta = []
     for data in rt_inputs(rng):
         for ms in MODESETS:
-            for sy in (SYMSETS if len(data) < 30 else SYMSETS[:2]):
+            for sy in (SYMSETS if len(data) < 12 else SYMSETS[:3] if len(data) < 30 else SYMSETS[:2]):
                 for mac in ('1', '0'):
                     for fnc in ('0', '1'):
                         lines.append('rt %s %s %s %s %s' % (sy, ms, mac, fnc, hx(data)))
@@ -389,17 +393,20 @@ def perf_search(binary, budget_s):
 
 SEARCH = {
     'V-PRUNE': [('perf', 60)],
-    'V-ADDSW': [('perf', 60)],
     'V-DEC': [('dec', 40)],
     'V-ECI': [('eci', 30), ('str_rt', 30), ('dec_str', 30)],
     'V-STR': [('str_rt', 30)],
-    'V-ENC': [('rt', 45)],
-    'V-ASCII': [('rt', 45)],
-    'V-X12': [('rt', 45)],
-    'V-B256': [('rt', 45)],
-    'V-DRV': [('rt', 45)],
-    'V-OPT': [('rt', 45), ('perf', 40)],
-    'V-PLAN': [('rt', 45)],
+    'V-ENC': [('rt', 75)],
+    'V-ASCII': [('rt', 75)],
+    'V-X12': [('rt', 75)],
+    'V-B256': [('rt', 75)],
+    'V-DRV': [('rt', 75)],
+    'V-OPT': [('rt', 75), ('perf', 40)],
+    'V-PLAN': [('rt', 75)],
+    'V-ADDSW': [('rt', 75), ('perf', 40)],
+    'V-C40': [('rt', 75)],
+    'V-EDI': [('rt', 75)],
+    'V-TOP': [('rt', 75), ('str_rt', 30)],
 }
 _CACHE = {}
 
